@@ -16,6 +16,15 @@ RULE = ("Hypothesis-generated Deferred histories: a Deferred with 0..3 callbacks
         "model of the callback chain plus the reference predicates. Second generator: test programs whose stages "
         "return already-fired Deferreds under SynchronousDeferredRunTest vs. the same program returning/raising "
         "directly under RunTest (differential). Also: a callback attached between two matches of one Deferred, an errback after a match, cleanups with positional and keyword arguments and KeyboardInterrupt / SystemExit / DeferredNotFired / falsy errors as stages of the runner differential (including what run() raises). "
+        "Values include an object with identity only and the tuples () and (1, 2); wherever the model knows which object the Deferred delivers, later callbacks, the inner "
+        "matcher of succeeded() and extract_result (value returned / exception raised) must meet that very object; every value also meets succeeded(Never()) and "
+        "succeeded(Is(value)); one matcher object is applied to a sibling Deferred first and then to the Deferred at hand; after match-then-fire / match-then-fail / "
+        "match-while-paused-then-unpause the three matchers are applied again; the second match after the chain grew also uses the generated inner matcher; an inner "
+        "matcher that raises while failed() inspects a failure still leaves the failure handled. A complete grid (raw state x kind of value / exception / failure form x "
+        "every single callback and two pairs x after-match history) runs under the random histories so that catches do not depend on the seed. Runner differential: also mixed "
+        "programs in which some stages return fired Deferreds and the others return / raise directly under the same runner (every program with <= 2 faulty stages, four "
+        "direct-stage sets), the names of the details that carry a stage's marker, and the Twisted log (no 'Unhandled error in Deferred' after the Deferred run unless the "
+        "direct run has one too). "
         "Non-trivial: callbacks attached before matching, or a "
         "match-then-fire history, or a nested inner matcher; distinct = distinct canonical spec.")
 ASSUMPTIONS = [
@@ -23,11 +32,33 @@ ASSUMPTIONS = [
     "has_no_result() on a failed Deferred is not required to mark the failure handled",
     "each of the three matchers is applied to its own structurally equal Deferred (inspecting a failure with "
     "succeeded()/failed() consumes it by design)",
+    "the same holds for a Deferred that was pause()d before it was fired: 'has fired' in the statement is read as 'delivers a result to a callback added now', "
+    "not as Deferred.called; an implementation that classifies by .called / .result on purpose would be reported",
+    "a failure handed to the inner matcher of failed() counts as inspected even when that matcher raises: it must not be logged as unhandled "
+    "(what failed().match() itself does then - raise or return - is not constrained)",
+    "'as if it had returned or raised directly' covers the outcome, the stages that ran, what run() raises, which details carry the stage's marker and what those "
+    "details are called, and the absence of an unhandled-error log; further details a runner attaches on its own are not compared",
+    "the log clauses count only events that look like the ones this Twisted emits for a failed Deferred dropped unhandled (learnt once per process by dropping "
+    "one); they need an interpreter that finalises unreferenced objects promptly (CPython) - elsewhere they are blind (label log-clauses-blind), not wrong",
+    "identity is demanded only of objects the model can name: the fired value / exception when every callback in front hands it through untouched, otherwise the "
+    "object seen by a harness-owned pass-through callback appended to the chain",
+    "a failed Deferred returned by two stages of one test is not generated (the first stage consumes the failure; a Deferred delivers a result once)",
 ]
 
 VAL = st.one_of(st.none(), st.integers(0, 3), st.sampled_from(["", "ab", "a b"]), st.lists(st.integers(0, 2), max_size=3),
                 st.just({"nested": [None, 0]}), st.just("<ANY>"),       # "<ANY>" stands for unittest.mock.ANY (equal to everything)
-                st.just("<EXC>"))                                       # "<EXC>" stands for an exception instance used as a plain value
+                st.just("<EXC>"),                                       # "<EXC>" stands for an exception instance used as a plain value
+                st.just("<OBJ>"),                                       # a fresh object that has identity only (a connection, a mock): a copy is another object
+                st.sampled_from(["<TUPLE0>", "<TUPLE2>"]))              # the tuples () and (1, 2): the one type that '%'-formatting treats specially
+PLACEHOLDERS = ("<ANY>", "<EXC>", "<OBJ>", "<TUPLE0>", "<TUPLE2>")
+TUPLES = {"<TUPLE0>": (), "<TUPLE2>": (1, 2)}
+
+
+class Opaque:
+    """A result with identity only: equal to nothing but itself, and copy.copy() of it is another object."""
+
+    def __repr__(self):
+        return "<Opaque result>"
 CB = st.sampled_from(["pass", "wrap", "to_none", "raise", "recover", "log", "pause"])
 EXC = st.sampled_from(["ValueError", "RuntimeError", "KeyError", "CustomError", "KeyboardInterrupt", "CustomBase"])
 
@@ -69,6 +100,10 @@ def live_val(v):
         return mock.ANY
     if v == "<EXC>":
         return ValueError("just a value")
+    if v == "<OBJ>":
+        return Opaque()
+    if isinstance(v, str) and v in TUPLES:
+        return TUPLES[v]
     return v
 
 
@@ -82,6 +117,10 @@ def same_val(got, want):
             return "<ANY>"
         if type(x) is ValueError and x.args == ("just a value",):
             return "<EXC>"
+        if type(x) is Opaque:
+            return "<OBJ>"
+        if type(x) is tuple:
+            return {(): "<TUPLE0>", (1, 2): "<TUPLE2>"}.get(x, x)
         if isinstance(x, list):
             return [norm(y) for y in x]
         return x
@@ -93,9 +132,12 @@ def add_cb(d, cb, log):
     make_deferred({"callbacks": [cb], "state": "nothing"}, log, d)
 
 
-def make_deferred(spec, log, d=None):
+def make_deferred(spec, log, d=None, keep=None):
+    """Build the Deferred of ``spec``.  ``keep`` (a list) receives the live object it is fired with: the
+    value, or the exception instance of the failure."""
     from twisted.internet import defer
     d = defer.Deferred() if d is None else d
+    keep = [] if keep is None else keep
     for cb in spec["callbacks"]:
         if cb == "pass":
             d.addCallback(lambda v: v)
@@ -116,15 +158,17 @@ def make_deferred(spec, log, d=None):
     if spec["state"].startswith("paused"):
         d.pause()
     if spec["state"] in ("value", "paused-value"):
-        d.callback(live_val(spec["value"]))
+        keep.append(live_val(spec["value"]))
+        d.callback(keep[0])
     elif spec["state"] in ("failure", "paused-failure"):
         from twisted.python.failure import Failure
         form = spec.get("fail_form", "live")
+        keep.append(ML.EXC_CLASSES[spec["exc"]]("boom-" + spec["exc"]))
         if form == "instance":
-            d.errback(Failure(ML.EXC_CLASSES[spec["exc"]]("boom-" + spec["exc"])))
+            d.errback(Failure(keep[0]))
         else:
             try:
-                raise ML.EXC_CLASSES[spec["exc"]]("boom-" + spec["exc"])
+                raise keep[0]
             except BaseException:
                 f = Failure()
             if form == "cleaned":
@@ -133,11 +177,75 @@ def make_deferred(spec, log, d=None):
     return d
 
 
+def result_is_fired_object(ds):
+    """True when the model says that what the Deferred delivers now is the very object it was fired with."""
+    if ds["state"] not in ("value", "failure"):
+        return False
+    mode = ds["state"]
+    for cb in ds["callbacks"]:
+        if mode == "value" and cb in ("wrap", "to_none", "log", "raise", "pause"):
+            return False
+        if mode == "failure" and cb == "recover":
+            return False
+    return True
+
+
+def fresh(ds, kind):
+    """-> (Deferred, the object it delivers now).  The object is the one the Deferred was fired with when the
+    chain hands that through untouched (the Deferred is then exactly the generated one); otherwise it is learnt from
+    a harness-owned pass-through callback pair appended to the chain (one more history of the quantifier)."""
+    keep = []
+    d = make_deferred(ds, [], keep=keep)
+    if kind not in ("value", "failure"):
+        return d, None
+    if result_is_fired_object(ds):
+        return d, keep[0]
+    tap = []
+    d.addCallbacks(lambda v: (tap.append(v), v)[1], lambda f: (tap.append(f.value), f)[1])
+    return d, (tap[0] if tap else None)
+
+
+_SIGNATURE = []
+
+
+def unhandled_signature():
+    """What this Twisted emits when a failed Deferred is dropped unhandled, learnt once by dropping one:
+    a set of (namespace, format) pairs.  Empty on an interpreter that does not finalise promptly: the log clauses
+    are then blind, never wrong."""
+    if not _SIGNATURE:
+        from twisted.internet import defer
+        from twisted.logger import globalLogPublisher
+        events = []
+        obs = events.append
+        # (keep the calibration event away from whoever else listens, e.g. Twisted's print-to-stderr fallback; if the
+        # attribute is gone the only consequence is one message on stderr)
+        others = list(getattr(globalLogPublisher, "_observers", ()))
+        for o in others:
+            globalLogPublisher.removeObserver(o)
+        globalLogPublisher.addObserver(obs)
+        try:
+            gc.collect(1)
+            del events[:]
+            d = defer.fail(ValueError("calibration"))
+            del d
+            gc.collect(1)
+        finally:
+            globalLogPublisher.removeObserver(obs)
+            for o in others:
+                globalLogPublisher.addObserver(o)
+        _SIGNATURE.append({(str(e.get("log_namespace")), str(e.get("log_format"))) for e in events
+                           if e.get("isError") or e.get("log_failure") is not None})
+    return _SIGNATURE[0]
+
+
 class LogCapture:
-    """Collect 'Unhandled error in Deferred' events from Twisted's global log publisher."""
+    """Collect 'Unhandled error in Deferred' events from Twisted's global log publisher.  Only events that look
+    like the ones this Twisted emits for a dropped failed Deferred are counted (see unhandled_signature): a
+    diagnostic message logged by the code under test is not an unhandled error."""
 
     def __enter__(self):
         from twisted.logger import globalLogPublisher
+        self.sig = unhandled_signature()
         self.events = []
         self._obs = self.events.append
         self._pub = globalLogPublisher
@@ -150,9 +258,9 @@ class LogCapture:
     def unhandled(self):
         out = []
         for e in self.events:
-            txt = str(e.get("log_format", "")) + str(e.get("why", ""))
-            if "Unhandled" in txt or e.get("isError") or e.get("log_failure") is not None:
-                out.append(txt[:80])
+            if (e.get("isError") or e.get("log_failure") is not None) and \
+                    (str(e.get("log_namespace")), str(e.get("log_format"))) in self.sig:
+                out.append((str(e.get("log_format", "")) + str(e.get("log_failure", "")))[:80])
         return out
 
 
@@ -195,15 +303,56 @@ def s_case(draw):
 
 
 def _value_in_domain(v, dom):
-    if v in ("<ANY>", "<EXC>"):
-        return False        # stand for mock.ANY / an exception instance, which are in no matcher's domain
+    if isinstance(v, str) and v in PLACEHOLDERS:
+        return False        # stand for mock.ANY / an exception instance / an opaque object / a tuple, which are in no matcher's domain
     return (dom == "int" and isinstance(v, int) and not isinstance(v, bool)) or (dom == "str" and isinstance(v, str)) or \
         (dom == "list" and isinstance(v, list) and all(isinstance(x, int) for x in v))
+
+
+def _sibling_value(v):
+    """Another value of the same inner-matcher domain."""
+    if isinstance(v, int):
+        return v + 1
+    if isinstance(v, str):
+        return v + "x"
+    return list(v) + [7]
+
+
+def check_now(d, model, tag, vs, obj=None):
+    """``d`` changed state after it was matched (it fired, failed or was resumed): the three matchers classify it as
+    it is now, and later callbacks see what the model says (and, where ``obj`` is known, that very object)."""
+    from testtools.twistedsupport import has_no_result, succeeded, failed
+    import testtools.matchers as tm
+    kind = model[0]
+    got = {"has_no_result": has_no_result().match(d) is None}
+    seen, errs = [], []
+    d.addCallbacks(lambda v: (seen.append(v), v)[1], lambda f: (errs.append(f), f)[1])
+    if kind != "failure":
+        got["succeeded"] = succeeded(tm.Always()).match(d) is None      # (on a failure it would consume it)
+    got["failed"] = failed(tm.Always()).match(d) is None
+    want = {"has_no_result": kind == "none", "succeeded": kind == "value", "failed": kind == "failure"}
+    want = {k: want[k] for k in got}
+    if got != want:
+        vs.append(V("classify", tag + "-rematch", "matched, then the Deferred changed state to %r, then matched again: %r, expected %r" % (model, got, want)))
+    if kind == "value":
+        if not (len(seen) == 1 and not errs and same_val(seen[0], model[1])):
+            vs.append(V("intact", tag, "match-then-fire: callback saw %r (errbacks %r), expected %r" % (seen, errs, model[1])))
+        elif obj is not None and seen[0] is not obj:
+            vs.append(V("identity", tag, "match-then-fire: the callback saw an object equal to the result but not the result itself"))
+    elif kind == "failure":
+        if not (len(errs) == 1 and not seen and errs[0].check(ML.EXC_CLASSES[model[1]])):
+            vs.append(V("intact", tag + "-then-failed", "match-then-errback: a later errback saw %r (callbacks saw %r), expected a %s failure" % (errs, seen, model[1])))
+        elif obj is not None and errs[0].value is not obj:
+            vs.append(V("identity", tag + "-then-failed", "match-then-errback: the errback saw another exception object than the one the Deferred failed with"))
+    elif seen or errs:
+        vs.append(V("passive", tag + "-fired", "a Deferred that delivers no result ran later callbacks: %r %r" % (seen, errs)))
+    d.addErrback(lambda f: None)
 
 
 def run_case(spec):
     from testtools.twistedsupport import has_no_result, succeeded, failed
     from testtools.twistedsupport._deferred import extract_result, DeferredNotFired
+    from twisted.internet import defer
     import testtools.matchers as tm
     import re
     vs = []
@@ -249,8 +398,27 @@ def run_case(spec):
                 got = succeeded(ML.build(spec["inner"], env)).match(d) is None
                 if got != w:
                     vs.append(V("inner", "succeeded", "succeeded(%s) on value %r: %s, reference says %s" % (spec["inner"]["m"], state[1], got, w)))
+                # one matcher object, two Deferreds: the verdict is about the Deferred at hand
+                m = succeeded(ML.build(spec["inner"], env))
+                try:
+                    m.match(defer.succeed(_sibling_value(state[1])))
+                except BaseException as e:
+                    if isinstance(e, (MemoryError, RecursionError)):
+                        raise
+                got = m.match(make_deferred(ds, [])) is None
+                if got != w:
+                    vs.append(V("inner", "succeeded-reused", "succeeded(%s) applied to another Deferred first, then to one with value %r: %s, reference says %s" % (
+                        spec["inner"]["m"], state[1], got, w)))
             except ML.Propagates:
                 pass
+        if kind == "value":
+            # inner matchers that need no domain: the value may be None, a dict, mock.ANY, an opaque object ...
+            d, obj = fresh(ds, kind)
+            if succeeded(tm.Never()).match(d) is None:
+                vs.append(V("inner", "succeeded-Never", "succeeded(Never()) matches a Deferred that fired with %r" % (state[1],)))
+            if succeeded(tm.Is(obj)).match(d) is not None or succeeded(tm.Not(tm.Is(obj))).match(d) is None:
+                vs.append(V("identity", "succeeded-inner", "the inner matcher of succeeded() was not given the result itself (result %r)" % (state[1],)))
+            del d, obj
         d = make_deferred(ds, [])
         inner = build_fail_inner(spec["fail_inner"])
         got = failed(inner).match(d) is None
@@ -266,11 +434,22 @@ def run_case(spec):
                 w = ref_fail_inner(fi, exc_name)
             if got != w:
                 vs.append(V("inner", "failed", "failed(%r) on failure %s: %s, reference says %s" % (fi, exc_name, got, w)))
+            # one matcher object, two Deferreds
+            m = failed(build_fail_inner(fi))
+            sib = defer.fail((ValueError if exc_name == "RuntimeError" else RuntimeError)("x-sibling"))
+            m.match(sib)
+            sib.addErrback(lambda f: None)
+            d2 = make_deferred(ds, [])
+            got = m.match(d2) is None
+            if got != w:
+                vs.append(V("inner", "failed-reused", "failed(%r) applied to another failed Deferred first, then to failure %s: %s, reference says %s" % (fi, exc_name, got, w)))
+            d2.addErrback(lambda f: None)
+            del d2, sib
         elif got:
             vs.append(V("inner", "failed-on-" + kind, "failed(m) matched a Deferred in state %r" % (state,)))
         del d
         # --- extract_result
-        d = make_deferred(ds, [])
+        d, obj = fresh(ds, kind)
         try:
             r = ("value", extract_result(d))
         except DeferredNotFired:
@@ -278,40 +457,55 @@ def run_case(spec):
         except BaseException as e:
             if isinstance(e, (MemoryError, RecursionError)):
                 raise
-            r = ("failure", type(e).__name__)
-        ok_r = (r[0] == state[0]) and (same_val(r[1], state[1]) if r[0] == "value" else r == state)
+            r = ("failure", type(e).__name__, e)
+        ok_r = (r[0] == state[0]) and (same_val(r[1], state[1]) if r[0] == "value" else r[:2] == state)
         if not ok_r:
-            vs.append(V("extract_result", "on-" + kind, "extract_result gave %r, state is %r" % (r, state)))
+            vs.append(V("extract_result", "on-" + kind, "extract_result gave %r, state is %r" % (r[:2], state)))
+        elif kind in ("value", "failure") and r[-1] is not obj:
+            vs.append(V("identity", "extract_result-" + kind, "extract_result %s an object equal to, but not, the Deferred's %s (%r)" % (
+                ("returned", "result", state[1]) if kind == "value" else ("raised", "exception", state[1]))))
         d.addErrback(lambda f: None)
-        del d
+        del d, obj, r
         # --- later callbacks see the original value
-        if kind in ("none", "value"):
-            for name, mk in (("has_no_result", has_no_result), ("succeeded", lambda: succeeded(tm.Always())), ("failed", lambda: failed(tm.Always()))):
-                d = make_deferred(ds, [])
+        for name, mk in (("has_no_result", has_no_result), ("succeeded", lambda: succeeded(tm.Always())), ("failed", lambda: failed(tm.Always()))):
+            if kind == "value":
+                d, obj = fresh(ds, kind)
                 mk().match(d)
                 seen = []
-                if kind == "value":
-                    d.addCallback(seen.append)
-                    if not (len(seen) == 1 and same_val(seen[0], state[1])):
-                        vs.append(V("intact", name + "-value", "after %s().match a new callback saw %r, original result %r" % (name, seen, state[1])))
-                elif ds["state"] == "unfired" and spec["after"] == "errback":
-                    # matched while unfired, then it fails: the failure still belongs to whoever handles it later
-                    errs = []
-                    d.addCallbacks(seen.append, errs.append)
-                    d.errback(ML.EXC_CLASSES["ValueError"]("late failure"))
-                    after_model = model_chain(dict(ds, state="failure", exc="ValueError"))
-                    if after_model[0] == "failure" and not (len(errs) == 1 and not seen and errs[0].check(ML.EXC_CLASSES[after_model[1]])):
-                        vs.append(V("intact", name + "-unfired-then-failed", "match-then-errback: a later errback saw %r (callbacks saw %r), expected a %s failure" % (errs, seen, after_model[1])))
+                d.addCallback(seen.append)
+                if not (len(seen) == 1 and same_val(seen[0], state[1])):
+                    vs.append(V("intact", name + "-value", "after %s().match a new callback saw %r, original result %r" % (name, seen, state[1])))
+                elif seen[0] is not obj:
+                    vs.append(V("identity", name + "-value", "after %s().match a new callback saw an object equal to the result (%r) but not the result itself" % (name, state[1])))
+                del d, obj, seen
+            elif kind == "none" and ds["state"] == "unfired" and spec["after"] != "none":
+                # matched while unfired, then it fires / fails: the result still belongs to whoever handles it later
+                d = make_deferred(ds, [])
+                mk().match(d)
+                if spec["after"] == "errback":
+                    fired = ML.EXC_CLASSES["ValueError"]("late failure")
+                    after = dict(ds, state="failure", exc="ValueError")
+                    d.errback(fired)
+                else:
+                    fired = live_val(ds["value"])
+                    after = dict(ds, state="value")
+                    d.callback(fired)
+                check_now(d, model_chain(after), name + "-unfired", vs, fired if result_is_fired_object(after) else None)
+                del d, fired
+            elif kind == "none" and ds["state"].startswith("paused"):
+                # matched while paused, then resumed
+                keep = []
+                d = make_deferred(ds, [], keep=keep)
+                if d.paused:        # (a 'pause' callback in front leaves nothing to resume)
+                    mk().match(d)
+                    d.unpause()
+                    after = dict(ds, state=ds["state"][len("paused-"):])
+                    check_now(d, model_chain(after), name + "-paused-then-resumed", vs, keep[0] if result_is_fired_object(after) else None)
+                else:
                     d.addErrback(lambda f: None)
-                elif ds["state"] == "unfired" and spec["after"] in ("fire", "add_callback"):
-                    d.addCallback(seen.append)
-                    d.callback(live_val(spec["deferred"]["value"]))
-                    after_model = model_chain(dict(ds, state="value"))
-                    if after_model[0] == "value" and not (len(seen) == 1 and same_val(seen[0], after_model[1])):
-                        vs.append(V("intact", name + "-unfired", "match-then-fire: callback saw %r, expected %r" % (seen, after_model[1])))
-                    d.addErrback(lambda f: None)
+                del d, keep
         # --- a passive probe leaves the Deferred as it was: has_no_result() first, then the matcher for its state
-        d = make_deferred(ds, [])
+        d, obj = fresh(ds, kind) if kind == "value" else (make_deferred(ds, []), None)
         first = has_no_result().match(d) is None
         if first != (kind == "none"):
             vs.append(V("classify", "has_no_result-on-%s" % kind, "has_no_result() verdict %r on state %r" % (first, state)))
@@ -323,43 +517,70 @@ def run_case(spec):
             if spec.get("then"):
                 # the chain grows between two matches: the matchers look at the Deferred as it is now
                 add_cb(d, spec["then"], [])
-                state2 = model_chain(dict(ds, callbacks=list(ds["callbacks"]) + [spec["then"]]))
+                ds2 = dict(ds, callbacks=list(ds["callbacks"]) + [spec["then"]])
+                state2 = model_chain(ds2)
                 got2 = {"has_no_result": has_no_result().match(d) is None}
                 got2["succeeded"] = succeeded(tm.Always()).match(d) is None if state2[0] != "failure" else False
+                if state2[0] == "value" and _value_in_domain(state2[1], spec["inner_domain"]):
+                    # ... and at its value as it is now
+                    try:
+                        w = ML.ref(spec["inner"], state2[1], env)
+                        g = succeeded(ML.build(spec["inner"], env)).match(d) is None
+                        if g != w:
+                            vs.append(V("inner", "succeeded-second-match", "matched, then a %r callback was added (value now %r), then succeeded(%s): %s, reference says %s" % (
+                                spec["then"], state2[1], spec["inner"]["m"], g, w)))
+                    except ML.Propagates:
+                        pass
+                    except Exception as e:
+                        vs.append(V("inner", "succeeded-second-match-raises", "matched, then a %r callback was added (value now %r), then succeeded(%s) raised %r" % (
+                            spec["then"], state2[1], spec["inner"]["m"], e)))
                 got2["failed"] = failed(tm.Always()).match(d) is None
                 want2 = {"has_no_result": state2[0] == "none", "succeeded": state2[0] == "value", "failed": state2[0] == "failure"}
                 if got2 != want2:
                     vs.append(V("classify", "second-match-after-%s" % spec["then"], "matched, then a %r callback was added (state now %r), then matched again: %r, expected %r" % (
                         spec["then"], state2, got2, want2)))
                 state_now = state2
+                if spec["then"] not in ("pass", "recover"):
+                    obj = None
             else:
                 state_now = state
             seen = []
             d.addCallback(seen.append)
             if state_now[0] == "value" and (not again or not (len(seen) == 1 and same_val(seen[0], state_now[1]))):
                 vs.append(V("intact", "probe-then-succeeded", "after has_no_result() and succeeded() twice: matches=%r, later callback saw %r, original %r" % (again, seen, state_now[1])))
+            elif state_now[0] == "value" and obj is not None and seen[0] is not obj:
+                vs.append(V("identity", "probe-then-succeeded", "after has_no_result() and succeeded() twice a later callback saw an object equal to the result (%r) but not the result itself" % (state_now[1],)))
+            del seen
         elif ds["state"] == "unfired":
             seen, errs = [], []
             d.addCallbacks(seen.append, errs.append)
             if seen or errs or d.called:
                 vs.append(V("passive", "probe-fired", "probing an unfired Deferred fired it"))
         d.addErrback(lambda f: None)
-        del d
+        del d, obj
         # --- inspected failures are marked handled
         if kind == "failure":
-            probes = (("succeeded", lambda: succeeded(tm.Always())), ("failed", lambda: failed(tm.Never())), ("failed-matching", lambda: failed(tm.Always())))
+            def inner_raises(d):
+                # the inner matcher raises while it looks at the failure: whatever failed() does about that,
+                # the failure has been inspected
+                try:
+                    failed(tm.AfterPreprocessing(lambda f: f.value.args[7], tm.Always())).match(d)
+                except Exception:
+                    pass
+            probes = (("succeeded", lambda d: succeeded(tm.Always()).match(d)), ("failed", lambda d: failed(tm.Never()).match(d)),
+                      ("failed-matching", lambda d: failed(tm.Always()).match(d)), ("failed-inner-raises", inner_raises))
             gc.collect(1)
             n0 = len(cap.unhandled())
-            for name, mk in probes:
+            for name, probe in probes:
                 d = make_deferred(ds, [])
-                mk().match(d)
+                probe(d)
                 del d
             gc.collect(1)
             if len(cap.unhandled()) != n0:       # somebody leaked: find out who
-                for name, mk in probes:
+                for name, probe in probes:
                     n1 = len(cap.unhandled())
                     d = make_deferred(ds, [])
-                    mk().match(d)
+                    probe(d)
                     del d
                     gc.collect(1)
                     if len(cap.unhandled()) != n1:
@@ -368,7 +589,10 @@ def run_case(spec):
     nt = bool(ds["callbacks"]) or (ds["state"] == "unfired" and spec["after"] != "none") or ML.depth_of(spec["inner"]) >= 1
     return Case(vs, nt, ["state=" + kind, "callbacks=%d" % len(ds["callbacks"]), "raw=" + ds["state"],
                          "failure-" + ds.get("fail_form", "live") if kind == "failure" else "",
-                         "value-is-an-exception" if kind == "value" and state[1] == "<EXC>" else ""], {"state": list(state)})
+                         "value-is-an-exception" if kind == "value" and state[1] == "<EXC>" else "",
+                         "value-is-opaque" if kind == "value" and state[1] == "<OBJ>" else "",
+                         "matched-then-" + spec["after"] if ds["state"] == "unfired" and spec["after"] in ("fire", "add_callback", "errback") else "",
+                         "" if cap.sig else "log-clauses-blind"], {"state": list(state)})
 
 
 # ---------------------------------------------------------------- SynchronousDeferredRunTest differential
@@ -376,14 +600,21 @@ STAGE = st.sampled_from([["ok"], ["ok"], ["fail"], ["error"], ["skip"], ["value"
 PROGRAM = st.fixed_dictionaries({"setUp": STAGE, "test": STAGE, "tearDown": STAGE, "cleanup": STAGE})
 
 
+STAGES = ("setUp", "test", "tearDown", "cleanup")
+
+
 def run_program_pair(spec):
     import testtools
     from testtools.twistedsupport import SynchronousDeferredRunTest
     from twisted.internet import defer
     vs = []
+    # stages that return / raise directly even under the Deferred runner (a test method that fails an assertion
+    # before it gets to 'return d' is a test returning fired Deferreds from its other stages)
+    direct = set(spec.get("direct", ()))
 
     def act(case, what, deferred_mode, marker):
         kind = what[0]
+        deferred_mode = deferred_mode and marker not in direct
         if kind == "ok":
             return defer.succeed(None) if deferred_mode else None
         if kind == "value":
@@ -437,18 +668,40 @@ def run_program_pair(spec):
                 raise
             left = type(e).__name__
         log.append(("run() raised", left))
-        outs = [(e[0], sorted(m for m in ("MARK-setUp", "MARK-test", "MARK-tearDown", "MARK-cleanup")
-                               if any(m.encode() in d[2] for d in (e[2].get("details") or {}).values() if isinstance(d[2], bytes))))
+        # per outcome: its name, which stages' markers its details carry, and what the details that carry one are
+        # called (a runner is free to attach further details of its own, say a log)
+        marks = ("MARK-setUp", "MARK-test", "MARK-tearDown", "MARK-cleanup")
+        outs = [(e[0], sorted(m for m in marks
+                               if any(m.encode() in d[2] for d in (e[2].get("details") or {}).values() if isinstance(d[2], bytes))),
+                 sorted(k for k, d in (e[2].get("details") or {}).items() if isinstance(d[2], bytes) and any(m.encode() in d[2] for m in marks)))
                 for e in res.events if e[0].startswith("add")]
+        del res
         return log, outs
-    a_log, a_out = make(False)
-    b_log, b_out = make(True)
+
+    def unhandled_after(deferred_mode):
+        """Run one arm; -> (log, outcomes, number of 'Unhandled error in Deferred' events by the time its garbage is gone)."""
+        gc.collect(1)
+        n0 = len(cap.unhandled())
+        log, outs = make(deferred_mode)
+        gc.collect(1)
+        return log, outs, len(cap.unhandled()) - n0
+    with LogCapture() as cap:
+        a_log, a_out, a_unh = unhandled_after(False)
+        b_log, b_out, b_unh = unhandled_after(True)
+        if b_unh != a_unh and unhandled_after(True)[2] == b_unh:      # (reproducibly, so that nobody else's garbage is blamed on this program)
+            vs.append(V("sync-runner", "unhandled-error-logged", "a stage's fired Deferred was left with an unhandled failure: %d 'Unhandled error in Deferred' event(s) "
+                        "after the run with Deferreds, %d after returning/raising directly: %r" % (b_unh, a_unh, cap.unhandled()[-2:])))
     if a_log != b_log:
         vs.append(V("sync-runner", "stage-order", "stages ran %r with Deferreds, %r directly" % (b_log, a_log)))
-    if a_out != b_out:
+    if [o[:2] for o in a_out] != [o[:2] for o in b_out]:
         vs.append(V("sync-runner", "outcome", "returning fired Deferreds gave %r, returning/raising directly gave %r" % (b_out, a_out)))
-    nt = sum(1 for k in spec.values() if k[0] not in ("ok",)) >= 1
-    return Case(vs, nt, ["faulty-stages=%d" % sum(1 for k in spec.values() if k[0] not in ("ok", "value"))], {"outcome": a_out})
+    elif a_out != b_out:
+        vs.append(V("sync-runner", "detail-names", "returning fired Deferreds gave details named %r, returning/raising directly %r" % (
+            [o[2] for o in b_out], [o[2] for o in a_out])))
+    nt = sum(1 for k in STAGES if spec[k][0] not in ("ok",)) >= 1
+    return Case(vs, nt, ["faulty-stages=%d" % sum(1 for k in STAGES if spec[k][0] not in ("ok", "value")),
+                         "direct-stages=%d" % len(direct) if direct else "",
+                         "" if cap.sig else "log-clauses-blind"], {"outcome": a_out})
 
 
 def _enum_programs():
@@ -462,13 +715,78 @@ def _enum_programs():
         for pos in range(4):
             for rest in itertools.product(few, repeat=3):
                 stages = list(rest[:pos]) + [nonexc] + list(rest[pos:])
-                yield dict(zip(("setUp", "test", "tearDown", "cleanup"), stages))
+                yield dict(zip(STAGES, stages))
+    # mixed programs: some stages return fired Deferreds, the others return / raise directly under the same
+    # (Deferred) runner; every program with at most two stages that are not plain 'ok'
+    allk = kinds + [["kbd"], ["sysexit"]]
+    for mask in (["test"], ["cleanup", "setUp"], ["tearDown"], sorted(STAGES)):
+        for n_faulty in (0, 1, 2):
+            for where in itertools.combinations(range(4), n_faulty):
+                for what in itertools.product(allk[1:], repeat=n_faulty):
+                    stages = [["ok"]] * 4
+                    for i, w in zip(where, what):
+                        stages[i] = w
+                    yield dict(zip(STAGES, stages), direct=list(mask))
+
+
+GRID_VALUES = [None, 0, 1, "", "ab", [], [0, 1], {"nested": [None, 0]}, "<ANY>", "<EXC>", "<OBJ>", "<TUPLE0>", "<TUPLE2>"]
+GRID_CHAINS = [[], ["pass"], ["wrap"], ["to_none"], ["raise"], ["recover"], ["log"], ["pause"], ["raise", "recover"], ["pass", "wrap"]]
+GRID_FAIL_INNER = [{"f": "Always"}, {"f": "Never"}, {"f": "type", "exc": "ValueError"}, {"f": "type", "exc": "RuntimeError"},
+                   {"f": "type", "exc": "Exception"}, {"f": "msg", "re": "boom"}, {"f": "msg", "re": "^x"}]
+
+
+def _enum_states():
+    """A small complete grid under the random histories, so that what a clause catches does not depend on the seed:
+    every raw state x every kind of value / exception / failure form x every single callback (and two pairs) x the
+    match-then-fire / -fail / second-match histories."""
+    n = [0, 0]
+
+    def case(deferred, then=None, after="none", force=None):
+        n[0] += 1
+        deferred = dict({"fail_form": "live", "exc": "ValueError", "value": None}, **deferred)
+        # the inner matcher's domain follows the value the Deferred delivers (every other time: the value it
+        # delivers after the 'then' callback, so that the second match meets an inner matcher that can tell)
+        n[1] += 1 if then else 0
+        m = model_chain(dict(deferred, callbacks=deferred["callbacks"] + [then]) if then and n[1] % 2 else deferred)
+        v = m[1] if m[0] == "value" else deferred["value"]
+        if isinstance(v, list):
+            dom, inner = "list", [ML.M("Equals", "list", l=[0, 1]), ML.M("Equals", "list", l=[1]), ML.M("HasLength", "list", n=1), ML.M("Equals", "list", l=[0])][n[0] // 2 % 4]
+        elif isinstance(v, str) and v not in PLACEHOLDERS:
+            dom, inner = "str", [ML.M("Equals", "str", s="ab"), ML.M("StartsWith", "str", s="x")][n[0] // 2 % 2]
+        else:
+            dom, inner = "int", [ML.M("Equals", "int", k=1), ML.M("LessThan", "int", k=1), ML.M("IsNone", "int")][n[0] // 2 % 3]
+        if force:
+            dom, inner = force
+        return {"deferred": deferred, "inner_domain": dom, "inner": inner,
+                "fail_inner": GRID_FAIL_INNER[n[0] % len(GRID_FAIL_INNER)], "after": after, "then": then}
+    # the value changes between two matches: every list-domain leaf that tells v from [v]
+    for chain in ([], ["pass"]):
+        for v in (0, 1):
+            for inner in (ML.M("Equals", "list", l=[1]), ML.M("Equals", "list", l=[0]), ML.M("HasLength", "list", n=1), ML.M("Contains", "list", k=1)):
+                yield case({"state": "value", "value": v, "callbacks": chain}, then="wrap", force=("list", inner))
+    for chain in GRID_CHAINS:
+        for v in GRID_VALUES:
+            for then in (None, "wrap", "pause", "raise"):
+                yield case({"state": "value", "value": v, "callbacks": chain}, then=then)
+        for exc in ("ValueError", "RuntimeError", "KeyError", "CustomError", "KeyboardInterrupt", "CustomBase"):
+            for form in ("live", "cleaned", "instance"):
+                for k in (0, 1):        # (two of the failure-side inner matchers each)
+                    yield case({"state": "failure", "exc": exc, "fail_form": form, "value": None, "callbacks": chain})
+        for v in (None, 1, "<OBJ>", "<TUPLE2>"):
+            for after in ("fire", "errback", "none"):
+                yield case({"state": "unfired", "value": v, "callbacks": chain}, after=after)
+            yield case({"state": "paused-value", "value": v, "callbacks": chain})
+        for exc in ("ValueError", "KeyboardInterrupt"):
+            yield case({"state": "paused-failure", "exc": exc, "callbacks": chain})
 
 
 def subchecks(tier):
     q = tier == "quick"
     return [
         Sub("deferred_states", run_case, s_case(), 4000 if q else 200000),
+        Sub("deferred_states_grid", run_case, enum=_enum_states, enum_complete=True,
+            note="raw state x value / exception / failure form x single callbacks and two pairs x after-match history"),
         Sub("sync_runner_differential", run_program_pair, enum=_enum_programs, enum_complete=True,
-            note="all 8^4 assignments of {ok, fail, error, skip, value, xfail, DeferredNotFired, falsy error} to setUp/test/tearDown/cleanup"),
+            note="all 8^4 assignments of {ok, fail, error, skip, value, xfail, DeferredNotFired, falsy error} to setUp/test/tearDown/cleanup; "
+                 "an interrupt in one stage; mixed programs (<= 2 faulty stages) where some stages return / raise directly"),
     ]
